@@ -525,6 +525,30 @@ func genPoly(t *rapid.T) polyCase {
 		c.Build, c.Kind = 3, "empty"
 	case special == 23:
 		c.Build, c.Kind = 4, "full"
+	case special == 19:
+		// More than 128 concentric squares on cell centres: the polygon is written in the
+		// compressed format and carries nesting depths that need a second varint byte
+		// (>= 128) or do not fit a byte at all (>= 256). Seeded change C09-r121.
+		face := rapid.IntRange(0, 5).Draw(t, "dn.face")
+		level := rapid.SampledFrom([]int{10, 14, 30}).Draw(t, "dn.level")
+		n := rapid.SampledFrom([]int{129, 130, 140, 200, 257, 300}).Draw(t, "dn.n")
+		mid := 1 << uint(level-1)
+		ci := mid + rapid.IntRange(-100, 100).Draw(t, "dn.ci")
+		cj := mid + rapid.IntRange(-100, 100).Draw(t, "dn.cj")
+		order := rapid.Permutation(seq(n)).Draw(t, "dn.order")
+		for _, k := range order {
+			i0, i1, j0, j1 := ci-k-1, ci+k+1, cj-k-1, cj+k+1
+			var v []gen.P
+			for _, ij := range [][2]int{{i0, j0}, {i1, j0}, {i1, j1}, {i0, j1}} {
+				v = append(v, gen.FromPt(cellCentre(face, level, ij[0], ij[1])))
+			}
+			c.Loops = append(c.Loops, v)
+		}
+		c.Build = rapid.SampledFrom([]int{0, 0, 1, 2}).Draw(t, "build")
+		c.Kind = "deep-nest"
+		if n >= 256 {
+			c.Kind = "deep-nest>=256"
+		}
 	case special == 11 || special == 29:
 		// three mutually adjacent face centres (level-0 cell centres), zeros written as +0 or −0
 		f := rapid.Permutation([]int{0, 1, 2}).Draw(t, "fperm")
@@ -920,6 +944,9 @@ func checkPoly(c polyCase) ev.Outcome {
 	}
 	if p.NumLoops() > 12 {
 		class += "/>12loops"
+	}
+	if p.NumLoops() > 128 {
+		class += "/depth>=128"
 	}
 	o.Class = class
 	if version == 4 {
@@ -1543,7 +1570,7 @@ func bucket(n int) int {
 
 func init() {
 	ev.Define("polygon_roundtrip", ev.Options{
-		Rule:  "polygons of 1..12 components in disjoint slots (6 face centres / 8 cube corners / 12 edge midpoints / free), each 1..4 nested star rings drawn in the gnomonic plane, a rectangle through cell centres of one level (incl. first/last cell of a face) or a lattice rectangle through cell corners (incl. the face boundary, si/ti = 0 or 2^31); every star vertex replaced by itself / the centre of its cell at the component level or another level / such a centre moved one ulp / a cell corner, with the snapped fraction drawn in {0, 12–36 % (format decision at 23.1 %), 5…97 %, 100 %} and base level 0..30 (a third 30, a sixth at 0,1,7,8,9,15,16,17,23,24,25,29); loop sizes 3..100 (260 thorough) with mass on 63/64/65; built by PolygonFromLoops / PolygonFromOrientedLoops / then Invert / single reversed loop; empty, full, and face-centre triangles with ±0; decoded into a fresh or a previously used receiver, from a ByteReader (with trailing bytes) or a one-byte plain Reader. Compared: all vertices bit for bit, nesting, origin flags, loop and polygon bounds bit for bit, shape accessors, area/centroid bits, 24 probe points × {ContainsPoint, Loop.ContainsPoint, ContainsCell, IntersectsCell}, Contains/Intersects against the original, re-encoding, determinism. Non-trivial = compressed format (first byte 4) with ≥ 1 vertex stored off-centre and ≥ 1 face change inside a loop, or lossless format (first byte 1) with ≥ 1 cell-centre vertex.",
+		Rule:  "polygons of 1..12 components in disjoint slots (6 face centres / 8 cube corners / 12 edge midpoints / free), each 1..4 nested star rings drawn in the gnomonic plane, a rectangle through cell centres of one level (incl. first/last cell of a face) or a lattice rectangle through cell corners (incl. the face boundary, si/ti = 0 or 2^31); every star vertex replaced by itself / the centre of its cell at the component level or another level / such a centre moved one ulp / a cell corner, with the snapped fraction drawn in {0, 12–36 % (format decision at 23.1 %), 5…97 %, 100 %} and base level 0..30 (a third 30, a sixth at 0,1,7,8,9,15,16,17,23,24,25,29); loop sizes 3..100 (260 thorough) with mass on 63/64/65; built by PolygonFromLoops / PolygonFromOrientedLoops / then Invert / single reversed loop; empty, full, and face-centre triangles with ±0; 1/40 of the cases 129..300 concentric squares on cell centres (nesting depth >= 128 / >= 256, compressed format; class /depth>=128); decoded into a fresh or a previously used receiver, from a ByteReader (with trailing bytes) or a one-byte plain Reader. Compared: all vertices bit for bit, nesting, origin flags, loop and polygon bounds bit for bit, shape accessors, area/centroid bits, 24 probe points × {ContainsPoint, Loop.ContainsPoint, ContainsCell, IntersectsCell}, Contains/Intersects against the original, re-encoding, determinism. Non-trivial = compressed format (first byte 4) with ≥ 1 vertex stored off-centre and ≥ 1 face change inside a loop, or lossless format (first byte 1) with ≥ 1 cell-centre vertex.",
 		Quick: 24000, Thorough: 900000}, genPoly, checkPoly)
 	ev.Define("loop_roundtrip", ev.Options{
 		Rule:  "loops from the shared families (regular, star, lattice, cell; 1/4 reversed), snapped star rings, loops taken out of nested polygons (depth 0..3), empty and full loops, optionally Invert()ed after construction; Loop.Encode/Decode round trip compared on vertices (bits), IsHole/Sign, ContainsOrigin, RectBound/CapBound bits, Equal/BoundaryEqual, edges, area/turning angle/centroid bits, 16 probes × {ContainsPoint, ContainsCell, IntersectsCell}, Contains against the original, re-encoding (carries the exact depth), determinism, exact consumption. Non-trivial = ≥ 3 vertices and (a hole, or inverted, or containing the origin).",
